@@ -7,63 +7,76 @@ namespace Juno.C06
 
 /-! ### the acceptor, step by step -/
 
-theorem Spec.run_append (strict : Bool) (s : Spec) (xs ys : List SEv) :
-    Spec.run strict s (xs ++ ys) = (match Spec.run strict s xs with
+theorem Spec.run_append (m : Mode) (s : Spec) (xs ys : List SEv) :
+    Spec.run m s (xs ++ ys) = (match Spec.run m s xs with
       | .error r => .error r
-      | .ok s' => Spec.run strict s' ys) := by
+      | .ok s' => Spec.run m s' ys) := by
   induction xs generalizing s with
   | nil => rfl
   | cons x xs ih =>
     simp only [List.cons_append, Spec.run]
-    cases Spec.step strict s x with
+    cases Spec.step m s x with
     | error r => rfl
     | ok s' => exact ih s'
 
-theorem Spec.step_stored_head (strict : Bool) (s : Spec) (req : Nat) (b : Blk) (rest : List (Nat × Blk))
+theorem Spec.step_stored_head (m : Mode) (s : Spec) (req : Nat) (b : Blk) (rest : List (Nat × Blk))
     (hev : s.ev.blocks = (req, b) :: rest) (hok : b.ok = true) (hs : succession s.chain b = .stored) :
-    Spec.step strict s (.obs (.stored b.num b.hash)) =
-      .ok { s with chain := b :: s.chain, pending := [],
+    Spec.step m s (.obs (.stored b.num b.hash)) =
+      .ok { s with chain := b :: s.chain, pending := [], ev := s.ev.clearRecent,
                    owed := s.owed ++ reorgObs (rangeOf s.pending) ++ [Obs.newHead b.num b.hash] } := by
   simp [Spec.step, hev, hok, hs]
 
-theorem Spec.step_newHead (strict : Bool) (s : Spec) (n h : Nat) (rest : List Obs)
+theorem Spec.step_newHead (m : Mode) (s : Spec) (n h : Nat) (rest : List Obs)
     (ho : s.owed = Obs.newHead n h :: rest) :
-    Spec.step strict s (.obs (.newHead n h)) = .ok { s with owed := rest } := by
+    Spec.step m s (.obs (.newHead n h)) = .ok { s with owed := rest } := by
   simp [Spec.step, ho]
 
-theorem Spec.step_reorg (strict : Bool) (s : Spec) (r : Range) (rest : List Obs)
+theorem Spec.step_reorg (m : Mode) (s : Spec) (r : Range) (rest : List Obs)
     (ho : s.owed = Obs.reorg r :: rest) :
-    Spec.step strict s (.obs (.reorg r)) = .ok { s with owed := rest } := by
+    Spec.step m s (.obs (.reorg r)) = .ok { s with owed := rest } := by
   simp [Spec.step, ho]
 
-theorem Spec.step_reverted (strict : Bool) (s : Spec) (hd : Blk) (tl : Chain) (hc : s.chain = hd :: tl)
-    (hj : justified strict s.ev s.chain hd = true) :
-    Spec.step strict s (.obs (.reverted hd.num hd.hash)) =
+theorem Spec.step_reverted (m : Mode) (s : Spec) (hd : Blk) (tl : Chain) (hc : s.chain = hd :: tl)
+    (hj : justified m s.ev s.chain hd = true) :
+    Spec.step m s (.obs (.reverted hd.num hd.hash)) =
       .ok { s with chain := tl, pending := hd :: s.pending } := by
-  have hj' : justified strict s.ev (hd :: tl) hd = true := hc ▸ hj
+  have hj' : justified m s.ev (hd :: tl) hd = true := hc ▸ hj
   simp [Spec.step, hc, hj']
 
 /-! ### evidence only grows -/
 
-theorem justified_mono_blocks (strict : Bool) (ev : Evidence) (x : Nat × Blk) (c : Chain) (hd : Blk)
-    (h : justified strict ev c hd = true) :
-    justified strict { ev with blocks := x :: ev.blocks } c hd = true := by
-  unfold justified at *
-  simp only [List.any_cons, Bool.or_eq_true, Bool.and_eq_true] at *
-  rcases h with (h | ⟨hs, h⟩) | h
-  · exact Or.inl (Or.inl (Or.inr h))
-  · exact Or.inl (Or.inr ⟨hs, Or.inr h⟩)
+theorem justified_mono_blocks (m : Mode) (ev : Evidence) (x : Nat × Blk) (c : Chain) (hd : Blk)
+    (h : justified m ev c hd = true) : justified m (ev.addBlock x) c hd = true := by
+  cases m <;> unfold justified at * <;>
+    simp only [Evidence.addBlock, List.any_cons, Bool.or_eq_true, Bool.and_eq_true] at *
+  · rcases h with (h | h) | h
+    · exact Or.inl (Or.inl (Or.inr h))
+    · exact Or.inl (Or.inr (Or.inr h))
+    · exact Or.inr h
+  · rcases h with h | h
+    · exact Or.inl (Or.inr h)
+    · exact Or.inr h
   · exact Or.inr h
 
-theorem justified_mono_latests (strict : Bool) (ev : Evidence) (x : Hdr) (c : Chain) (hd : Blk)
-    (h : justified strict ev c hd = true) :
-    justified strict { ev with latests := x :: ev.latests } c hd = true := by
-  unfold justified at *
-  simp only [List.any_cons, Bool.or_eq_true, Bool.and_eq_true] at *
-  rcases h with (h | ⟨hs, h⟩) | h
-  · exact Or.inl (Or.inl h)
-  · exact Or.inl (Or.inr ⟨hs, h⟩)
-  · exact Or.inr (Or.inr h)
+theorem justified_mono_latests (m : Mode) (ev : Evidence) (x : Hdr) (c : Chain) (hd : Blk)
+    (h : justified m ev c hd = true) : justified m (ev.addLatest x) c hd = true := by
+  cases m <;> unfold justified at * <;>
+    simp only [Evidence.addLatest, List.any_cons, Bool.or_eq_true, Bool.and_eq_true] at *
+  · rcases h with (h | h) | h
+    · exact Or.inl (Or.inl h)
+    · exact Or.inl (Or.inr h)
+    · exact Or.inr (Or.inr h)
+  · rcases h with h | h
+    · exact Or.inl h
+    · exact Or.inr (Or.inr h)
+  · exact h
+
+/-- which relation a code variant can be held to -/
+structure ModeOK (cfg : Cfg) (m : Mode) : Prop where
+  head : m ≠ .lenient → cfg.confirmHead = true
+  ver : m = .verified → cfg.verifyAns = true ∧ cfg.confirmLatest = true
+
+theorem ModeOK.lenient (cfg : Cfg) : ModeOK cfg .lenient := ⟨fun h => absurd rfl h, fun h => by cases h⟩
 
 /-! ### what a run of the machine emits -/
 
@@ -74,9 +87,12 @@ def Impl.emit (cfg : Cfg) (s : Impl) (e : Ev) : List SEv :=
     match s.task with
     | some _ => []
     | none => SEv.served req b :: (s.step cfg e).2.map SEv.obs
-  | .reorgDetected _ latest =>
+  | .reorgDetected _ latest confirm =>
     match s.task, latest with
-    | none, some l => [SEv.latest l]
+    | none, some l =>
+      SEv.latest l :: (match confirm with
+        | some b => if cfg.confirmLatest then [SEv.served l.num b] else []
+        | none => [])
     | _, _ => []
   | .iter ans _ =>
     match s.task, s.node.chain with
@@ -98,7 +114,7 @@ succeeds, and — unless the code checks it itself (`cfg.numCheck`) — the sour
 revert task's `BlockByNumber(h)` with a block numbered `h`. -/
 def Impl.evOK (cfg : Cfg) (s : Impl) : Ev → Prop
   | .deliver _ b _ => b.num < U64
-  | .reorgDetected _ _ => True
+  | .reorgDetected _ _ _ => True
   | .iter ans revOk =>
     revOk = true ∧
     (cfg.numCheck = false → ∀ lpv hd tl rb, s.task = some lpv → s.node.chain = hd :: tl →
@@ -110,18 +126,18 @@ def Impl.runOK (cfg : Cfg) (s : Impl) : List Ev → Prop
   | e :: es => s.evOK cfg e ∧ Impl.runOK cfg (s.step cfg e).1 es
 
 /-- While `revertTask(lpv)` runs, every block above `lpv` that is still on the chain is justified. -/
-def TaskInv (strict : Bool) (i : Impl) : Prop :=
+def TaskInv (m : Mode) (i : Impl) : Prop :=
   ∀ lpv, i.task = some lpv → ∀ hd tl, (hd :: tl) <:+ i.node.chain → lpv < hd.num →
-    justified strict i.ev (hd :: tl) hd = true
+    justified m i.ev (hd :: tl) hd = true
 
-structure Sim (strict : Bool) (i : Impl) (sp : Spec) : Prop where
+structure Sim (m : Mode) (i : Impl) (sp : Spec) : Prop where
   chain : sp.chain = i.node.chain
   ev : sp.ev = i.ev
   owed : sp.owed = []
   reorg : i.node.reorg = rangeOf sp.pending
   linked : Linked i.node.chain
   bound : ∀ x ∈ i.node.chain, x.num < U64
-  task : TaskInv strict i
+  task : TaskInv m i
 
 theorem rangeOf_cons (hd : Blk) (p : List Blk) :
     rangeOf (hd :: p) = some (match rangeOf p with
@@ -131,8 +147,8 @@ theorem rangeOf_cons (hd : Blk) (p : List Blk) :
   | nil => rfl
   | cons a rest => simp [rangeOf, lastD]
 
-theorem Sim.init {strict : Bool} {c : Chain} (hl : Linked c) (hb : ∀ x ∈ c, x.num < U64) :
-    Sim strict (Impl.init c) (Spec.init c) :=
+theorem Sim.init {m : Mode} {c : Chain} (hl : Linked c) (hb : ∀ x ∈ c, x.num < U64) :
+    Sim m (Impl.init c) (Spec.init c) :=
   ⟨rfl, rfl, rfl, rfl, hl, hb, by intro lpv h; cases h⟩
 
 /-! ### facts about the transcribed functions -/
@@ -172,10 +188,12 @@ theorem Linked.cons_of_succession {c : Chain} {b : Blk} (hl : Linked c)
   | nil => exact ⟨hn, hp⟩
   | cons hd tl => exact ⟨hn, hp, hl⟩
 
-theorem isReverting_some {cfg : Cfg} {c : Chain} {next : Nat} {l : Hdr} {lpv : Nat}
-    (h : isReverting cfg c next (some l) = some lpv) :
+theorem isReverting_some {cfg : Cfg} {c : Chain} {next : Nat} {l : Hdr} {confirm : Option Blk} {lpv : Nat}
+    (h : isReverting cfg c next (some l) confirm = some lpv) :
     ∃ H T lh, c = H :: T ∧ H.num + 1 = next ∧ l.num ≤ H.num ∧ byNumber? c l.num = some lh ∧
       lh.hash ≠ l.hash ∧
+      (cfg.confirmLatest = true →
+        ∃ b, confirm = some b ∧ b.ok = true ∧ b.num = l.num ∧ b.hash = l.hash) ∧
       ((cfg.zeroGuard = true ∧ l.num = 0 ∧ lpv = 0) ∨
        (¬ (cfg.zeroGuard = true ∧ l.num = 0) ∧ lpv = sub64 l.num 1)) := by
   unfold isReverting at h
@@ -183,42 +201,48 @@ theorem isReverting_some {cfg : Cfg} {c : Chain} {next : Nat} {l : Hdr} {lpv : N
   | nil => simp at h
   | cons H T =>
     simp only [] at h
-    split at h
-    · cases h
-    · rename_i hnext
-      split at h
-      · cases h
-      · rename_i hle
-        have hle' : l.num ≤ H.num := by omega
-        have hcmp : (if l.num < H.num then l.num else H.num) = l.num := by
-          split <;> omega
-        rw [hcmp] at h
-        split at h
-        · cases h
-        · rename_i lh hlh
-          split at h
-          · cases h
-          · rename_i hne
-            refine ⟨H, T, lh, rfl, by simpa using hnext, hle', hlh, ?_, ?_⟩
-            · intro e; apply hne; simp [e]
-            · split at h
-              · rename_i hz
-                simp only [Bool.and_eq_true, beq_iff_eq] at hz
-                left; exact ⟨hz.1, hz.2, (Option.some.inj h).symm⟩
-              · rename_i hz
-                simp only [Bool.and_eq_true, beq_iff_eq] at hz
-                right; exact ⟨hz, (Option.some.inj h).symm⟩
+    by_cases hnext : H.num + 1 = next
+    case neg => simp [hnext] at h
+    by_cases hgt : l.num > H.num
+    case pos => simp [hnext, hgt] at h
+    have hle' : l.num ≤ H.num := by omega
+    have hcmp : (if l.num < H.num then l.num else H.num) = l.num := by split <;> omega
+    simp only [hnext, bne_self_eq_false, Bool.false_eq_true, if_false, hgt, hcmp] at h
+    cases hlh : byNumber? (H :: T) l.num with
+    | none => simp [hlh] at h
+    | some lh =>
+      simp only [hlh] at h
+      by_cases hne : l.hash = lh.hash
+      case pos => simp [hne] at h
+      have hb : (l.hash == lh.hash) = false := by simpa using hne
+      simp only [hb, Bool.false_eq_true, if_false] at h
+      by_cases hconf : (cfg.confirmLatest && !confirmed confirm l) = true
+      case pos => rw [if_pos hconf] at h; cases h
+      rw [if_neg hconf] at h
+      refine ⟨H, T, lh, rfl, hnext, hle', rfl, fun e => hne e.symm, ?_, ?_⟩
+      · intro hcl
+        simp only [hcl, Bool.true_and, Bool.not_eq_true', Bool.not_eq_false] at hconf
+        cases confirm with
+        | none => simp [confirmed] at hconf
+        | some b =>
+          simp only [confirmed, Bool.and_eq_true, beq_iff_eq] at hconf
+          exact ⟨b, rfl, hconf.1.1, hconf.1.2, hconf.2⟩
+      · by_cases hz : (cfg.zeroGuard && l.num == 0) = true
+        · rw [if_pos hz] at h
+          simp only [Bool.and_eq_true, beq_iff_eq] at hz
+          left; exact ⟨hz.1, hz.2, (Option.some.inj h).symm⟩
+        · rw [if_neg hz] at h
+          simp only [Bool.and_eq_true, beq_iff_eq] at hz
+          right; exact ⟨hz, (Option.some.inj h).symm⟩
 
 /-! ### the simulation -/
 
-def Impl.addBlock (i : Impl) (x : Nat × Blk) : Impl :=
-  { i with ev := { i.ev with blocks := x :: i.ev.blocks } }
+def Impl.addBlock (i : Impl) (x : Nat × Blk) : Impl := { i with ev := i.ev.addBlock x }
 
-def Spec.addBlock (s : Spec) (x : Nat × Blk) : Spec :=
-  { s with ev := { s.ev with blocks := x :: s.ev.blocks } }
+def Spec.addBlock (s : Spec) (x : Nat × Blk) : Spec := { s with ev := s.ev.addBlock x }
 
-theorem Sim.addBlock {strict : Bool} {i : Impl} {sp : Spec} (h : Sim strict i sp) (x : Nat × Blk) :
-    Sim strict (i.addBlock x) (sp.addBlock x) := by
+theorem Sim.addBlock {m : Mode} {i : Impl} {sp : Spec} (h : Sim m i sp) (x : Nat × Blk) :
+    Sim m (i.addBlock x) (sp.addBlock x) := by
   refine ⟨h.chain, ?_, h.owed, h.reorg, h.linked, h.bound, ?_⟩
   · simp [Impl.addBlock, Spec.addBlock, h.ev]
   · intro lpv ht hd tl hs hlt
@@ -234,17 +258,17 @@ theorem suffix_eq_of_num {c : Chain} {H hd : Blk} {T tl : Chain} (hl : Linked c)
   have := hs.eq_of_length this
   exact ⟨(List.cons.inj this).1, (List.cons.inj this).2⟩
 
-theorem Sim.step_deliver (cfg : Cfg) {strict : Bool} {i : Impl} {sp : Spec} (h : Sim strict i sp)
-    (hsc : strict = true → cfg.confirmHead = true) (req : Nat) (b : Blk)
+theorem Sim.step_deliver (cfg : Cfg) {m : Mode} {i : Impl} {sp : Spec} (h : Sim m i sp)
+    (hm : ModeOK cfg m) (req : Nat) (b : Blk)
     (c : Bool) (hb : b.num < U64) :
-    ∃ sp', Spec.run strict sp (i.emit cfg (.deliver req b c)) = .ok sp' ∧
-      Sim strict (i.step cfg (.deliver req b c)).1 sp' := by
+    ∃ sp', Spec.run m sp (i.emit cfg (.deliver req b c)) = .ok sp' ∧
+      Sim m (i.step cfg (.deliver req b c)).1 sp' := by
   cases ht : i.task with
   | some lpv =>
     exact ⟨sp, by simp [Impl.emit, ht, Spec.run], by simpa [Impl.step, ht] using h⟩
   | none =>
     have h1 := h.addBlock (req, b)
-    have hserved : Spec.step strict sp (.served req b) = .ok (sp.addBlock (req, b)) := rfl
+    have hserved : Spec.step m sp (.served req b) = .ok (sp.addBlock (req, b)) := rfl
     by_cases hok : b.ok = true
     case neg =>
       refine ⟨sp.addBlock (req, b), ?_, ?_⟩
@@ -274,7 +298,6 @@ theorem Sim.step_deliver (cfg : Cfg) {strict : Bool} {i : Impl} {sp : Spec} (h :
         simp only [Option.some.injEq] at hlpv
         subst hlpv
         obtain ⟨hn, hp⟩ := succession_parentMismatch hsucc
-        -- the chain is not empty (otherwise there is no suffix `hd :: tl`)
         cases hch : i.node.chain with
         | nil =>
           have : (hd :: tl) <:+ ([] : Chain) := by simpa [Impl.addBlock, hch] using hs
@@ -290,18 +313,19 @@ theorem Sim.step_deliver (cfg : Cfg) {strict : Bool} {i : Impl} {sp : Spec} (h :
             simp [hch] at this; omega
           cases hcf : cfg.confirmHead with
           | true =>
-            -- the head itself is at lpv: nothing is reverted without asking
             have : mismatchLpv cfg b = b.num - 1 := by
               unfold mismatchLpv; simp only [hcf, if_true]; exact sub64_of_le (by omega) hb
             rw [this] at hlt; omega
           | false =>
-            have hstrict : strict = false := by
-              cases hst : strict with
-              | false => rfl
-              | true => rw [hsc hst] at hcf; cases hcf
-            have hm : mismatchLpv cfg b = sub64 b.num 2 := by
+            have hml : m = .lenient := by
+              cases m with
+              | lenient => rfl
+              | fresh => have := hm.head (by simp); rw [this] at hcf; cases hcf
+              | verified => have := hm.head (by simp); rw [this] at hcf; cases hcf
+            subst hml
+            have hmm : mismatchLpv cfg b = sub64 b.num 2 := by
               unfold mismatchLpv; simp [hcf]
-            rw [hm] at hlt
+            rw [hmm] at hlt
             by_cases hb2 : 2 ≤ b.num
             · have hlpv : sub64 b.num 2 = b.num - 2 := sub64_of_le hb2 hb
               rw [hlpv] at hlt
@@ -311,8 +335,8 @@ theorem Sim.step_deliver (cfg : Cfg) {strict : Bool} {i : Impl} {sp : Spec} (h :
               have : ((i.addBlock (req, b)).ev.blocks.any
                   (fun rb => rb.2.ok && rb.2.num == hd.num + 1 && rb.2.parent != hd.hash)) = true := by
                 have hp' : b.parent ≠ hd.hash := by simpa [hch, expParent] using hp
-                simp [Impl.addBlock, hok, hbn, hp']
-              simp [this, hstrict]
+                simp [Impl.addBlock, Evidence.addBlock, hok, hbn, hp']
+              simp [this]
             · have hlpv : sub64 b.num 2 = U64 - 1 := by
                 have : b.num = 1 := by omega
                 rw [this]; decide
@@ -321,17 +345,18 @@ theorem Sim.step_deliver (cfg : Cfg) {strict : Bool} {i : Impl} {sp : Spec} (h :
               unfold U64 at *; omega
     | stored =>
       have hl' := h.linked.cons_of_succession hsucc
-      have hst := Spec.step_stored_head strict (sp.addBlock (req, b)) req b sp.ev.blocks
-        (by simp [Spec.addBlock]) hok (by simpa [Spec.addBlock, h.chain] using hsucc)
+      have hst := Spec.step_stored_head m (sp.addBlock (req, b)) req b sp.ev.blocks
+        (by simp [Spec.addBlock, Evidence.addBlock]) hok (by simpa [Spec.addBlock, h.chain] using hsucc)
       have hemit : i.emit cfg (.deliver req b c) =
           SEv.served req b :: SEv.obs (.stored b.num b.hash) ::
             ((reorgObs i.node.reorg).map SEv.obs ++ [SEv.obs (.newHead b.num b.hash)]) := by
         simp [Impl.emit, ht, Impl.step, hok, hc, hsucc, onStored]
       have hstep : (i.step cfg (.deliver req b c)).1 =
-          { i.addBlock (req, b) with node := ⟨b :: i.node.chain, none⟩ } := by
+          { i.addBlock (req, b) with node := ⟨b :: i.node.chain, none⟩,
+                                     ev := (i.ev.addBlock (req, b)).clearRecent } := by
         simp [Impl.step, ht, hok, hc, hsucc, onStored, Impl.addBlock]
       rw [hemit, hstep]
-      refine ⟨{ sp.addBlock (req, b) with chain := b :: sp.chain, pending := [], owed := [] }, ?_, ?_⟩
+      refine ⟨⟨b :: sp.chain, (sp.ev.addBlock (req, b)).clearRecent, [], []⟩, ?_, ?_⟩
       · simp only [Spec.run, hserved, hst]
         have ho : (sp.addBlock (req, b)).owed = [] := h.owed
         have hr : rangeOf (sp.addBlock (req, b)).pending = i.node.reorg := h.reorg.symm
@@ -339,15 +364,15 @@ theorem Sim.step_deliver (cfg : Cfg) {strict : Bool} {i : Impl} {sp : Spec} (h :
         cases hreo : i.node.reorg with
         | none =>
           simp only [reorgObs, List.map_nil, List.nil_append, Spec.run]
-          rw [Spec.step_newHead strict _ b.num b.hash [] (by simp [Spec.addBlock])]
+          rw [Spec.step_newHead m _ b.num b.hash [] (by simp)]
           simp [Spec.addBlock]
         | some r =>
           simp only [reorgObs, List.map_cons, List.map_nil, List.nil_append, List.cons_append, Spec.run]
-          rw [Spec.step_reorg strict _ r [Obs.newHead b.num b.hash] (by simp [Spec.addBlock])]
+          rw [Spec.step_reorg m _ r [Obs.newHead b.num b.hash] (by simp)]
           simp only []
-          rw [Spec.step_newHead strict _ b.num b.hash [] (by simp [Spec.addBlock])]
+          rw [Spec.step_newHead m _ b.num b.hash [] (by simp)]
           simp [Spec.addBlock]
-      · refine ⟨by simp [h.chain], by simp [Spec.addBlock, Impl.addBlock, h.ev], rfl, by simp [rangeOf], hl', ?_, ?_⟩
+      · refine ⟨by simp [h.chain], by simp [h.ev], rfl, by simp [rangeOf], hl', ?_, ?_⟩
         · intro x hx
           rcases List.mem_cons.mp hx with rfl | hx
           · exact hb
@@ -355,49 +380,90 @@ theorem Sim.step_deliver (cfg : Cfg) {strict : Bool} {i : Impl} {sp : Spec} (h :
         · intro lpv hlpv
           simp [Impl.addBlock, ht] at hlpv
 
-def Impl.addLatest (i : Impl) (x : Hdr) : Impl :=
-  { i with ev := { i.ev with latests := x :: i.ev.latests } }
+def Impl.addLatest (i : Impl) (x : Hdr) : Impl := { i with ev := i.ev.addLatest x }
 
-def Spec.addLatest (s : Spec) (x : Hdr) : Spec :=
-  { s with ev := { s.ev with latests := x :: s.ev.latests } }
+def Spec.addLatest (s : Spec) (x : Hdr) : Spec := { s with ev := s.ev.addLatest x }
 
-theorem Sim.addLatest {strict : Bool} {i : Impl} {sp : Spec} (h : Sim strict i sp) (x : Hdr) :
-    Sim strict (i.addLatest x) (sp.addLatest x) := by
+theorem Sim.addLatest {m : Mode} {i : Impl} {sp : Spec} (h : Sim m i sp) (x : Hdr) :
+    Sim m (i.addLatest x) (sp.addLatest x) := by
   refine ⟨h.chain, ?_, h.owed, h.reorg, h.linked, h.bound, ?_⟩
   · simp [Impl.addLatest, Spec.addLatest, h.ev]
   · intro lpv ht hd tl hs hlt
     exact justified_mono_latests _ _ _ _ _ (h.task lpv ht hd tl hs hlt)
 
-theorem Sim.step_reorgDetected (cfg : Cfg) {strict : Bool} {i : Impl} {sp : Spec} (h : Sim strict i sp) (next : Nat)
-    (latest : Option Hdr) :
-    ∃ sp', Spec.run strict sp (i.emit cfg (.reorgDetected next latest)) = .ok sp' ∧
-      Sim strict (i.step cfg (.reorgDetected next latest)).1 sp' := by
+theorem isReverting_none_latest (cfg : Cfg) (c : Chain) (next : Nat) (confirm : Option Blk) :
+    isReverting cfg c next none confirm = none := by
+  unfold isReverting; cases c <;> simp
+
+theorem Sim.step_reorgDetected (cfg : Cfg) {m : Mode} {i : Impl} {sp : Spec} (h : Sim m i sp)
+    (hm : ModeOK cfg m) (next : Nat) (latest : Option Hdr) (confirm : Option Blk) :
+    ∃ sp', Spec.run m sp (i.emit cfg (.reorgDetected next latest confirm)) = .ok sp' ∧
+      Sim m (i.step cfg (.reorgDetected next latest confirm)).1 sp' := by
   cases ht : i.task with
   | some lpv =>
     exact ⟨sp, by simp [Impl.emit, ht, Spec.run], by simpa [Impl.step, ht] using h⟩
   | none =>
     cases latest with
     | none =>
-      have hir : isReverting cfg i.node.chain next none = none := by
-        unfold isReverting; cases i.node.chain <;> simp
+      have hir := isReverting_none_latest cfg i.node.chain next confirm
       exact ⟨sp, by simp [Impl.emit, ht, Spec.run], by simpa [Impl.step, ht, hir] using h⟩
     | some l =>
-      have h1 := h.addLatest l
-      have hlat : Spec.step strict sp (.latest l) = .ok (sp.addLatest l) := rfl
-      refine ⟨sp.addLatest l, by simp [Impl.emit, ht, Spec.run, hlat], ?_⟩
-      cases hir : isReverting cfg i.node.chain next (some l) with
-      | none => simpa [Impl.step, ht, hir, Impl.addLatest] using h1
+      -- the states after the ghost answers (the header, and the confirming block if one was fetched)
+      let addC : Bool := cfg.confirmLatest && confirm.isSome
+      let i1 : Impl := match confirm with
+        | some b => if cfg.confirmLatest then (i.addLatest l).addBlock (l.num, b) else i.addLatest l
+        | none => i.addLatest l
+      let sp1 : Spec := match confirm with
+        | some b => if cfg.confirmLatest then (sp.addLatest l).addBlock (l.num, b) else sp.addLatest l
+        | none => sp.addLatest l
+      have h1 : Sim m i1 sp1 := by
+        cases confirm with
+        | none => exact h.addLatest l
+        | some b =>
+          by_cases hcl : cfg.confirmLatest = true
+          · simpa [i1, sp1, hcl] using (h.addLatest l).addBlock (l.num, b)
+          · simpa [i1, sp1, hcl] using h.addLatest l
+      have hi1 : i1.node = i.node ∧ i1.task = none := by
+        cases confirm with
+        | none => exact ⟨rfl, ht⟩
+        | some b =>
+          by_cases hcl : cfg.confirmLatest = true
+          · simp [i1, hcl, Impl.addBlock, Impl.addLatest, ht]
+          · simp [i1, hcl, Impl.addLatest, ht]
+      have hrun : Spec.run m sp (i.emit cfg (.reorgDetected next (some l) confirm)) = .ok sp1 := by
+        cases confirm with
+        | none => simp [Impl.emit, ht, Spec.run, Spec.step, sp1, Spec.addLatest]
+        | some b =>
+          by_cases hcl : cfg.confirmLatest = true
+          · simp [Impl.emit, ht, Spec.run, Spec.step, sp1, hcl, Spec.addLatest, Spec.addBlock]
+          · simp [Impl.emit, ht, Spec.run, Spec.step, sp1, hcl, Spec.addLatest]
+      refine ⟨sp1, hrun, ?_⟩
+      cases hir : isReverting cfg i.node.chain next (some l) confirm with
+      | none =>
+        have hstep : (i.step cfg (.reorgDetected next (some l) confirm)).1 = i1 := by
+          cases confirm with
+          | none => simp [Impl.step, ht, hir, i1, Impl.addLatest]
+          | some b =>
+            by_cases hcl : cfg.confirmLatest = true
+            · simp [Impl.step, ht, hir, i1, hcl, Impl.addLatest, Impl.addBlock]
+            · simp [Impl.step, ht, hir, i1, hcl, Impl.addLatest]
+        rw [hstep]; exact h1
       | some lpv =>
-        have hstep : (i.step cfg (.reorgDetected next (some l))).1 =
-            { i.addLatest l with task := some lpv } := by
-          simp [Impl.step, ht, hir, Impl.addLatest]
+        have hstep : (i.step cfg (.reorgDetected next (some l) confirm)).1 =
+            { i1 with task := some lpv } := by
+          cases confirm with
+          | none => simp [Impl.step, ht, hir, i1, Impl.addLatest]
+          | some b =>
+            by_cases hcl : cfg.confirmLatest = true
+            · simp [Impl.step, ht, hir, i1, hcl, Impl.addLatest, Impl.addBlock]
+            · simp [Impl.step, ht, hir, i1, hcl, Impl.addLatest]
         rw [hstep]
         refine ⟨h1.chain, h1.ev, h1.owed, h1.reorg, h1.linked, h1.bound, ?_⟩
         intro lpv' hlpv hd tl hs hlt
         simp only [Option.some.injEq] at hlpv
         subst hlpv
-        obtain ⟨H, T, lh, hch, _, hle, hlh, hne, hcase⟩ := isReverting_some hir
-        have hs' : (hd :: tl) <:+ i.node.chain := by simpa [Impl.addLatest] using hs
+        obtain ⟨H, T, lh, hch, _, hle, hlh, hne, hconf, hcase⟩ := isReverting_some hir
+        have hs' : (hd :: tl) <:+ i.node.chain := by rw [← hi1.1]; exact hs
         have hHb := h.bound H (by simp [hch])
         have hlnum : l.num ≤ hd.num := by
           rcases hcase with ⟨_, hz, _⟩ | ⟨_, hl⟩
@@ -410,18 +476,48 @@ theorem Sim.step_reorgDetected (cfg : Cfg) {strict : Bool} {i : Impl} {sp : Spec
           rw [← Linked.byNumber_suffix h.linked hs' (by
             have := Linked.head_num (h.linked.suffix hs'); simp; omega)]
           exact hlh
-        unfold justified
-        have : ((i.addLatest l).ev.latests.any (fun l' => decide (l'.num ≤ hd.num) &&
-            (match byNumber? (hd :: tl) l'.num with
-              | some lb => lb.hash != l'.hash | none => false))) = true := by
-          simp [Impl.addLatest, hlnum, hlook, hne]
-        simp only [Bool.or_eq_true]
-        exact Or.inr this
+        -- the header is in both evidence lists of i1, the confirming block (if demanded) too
+        have hlat : l ∈ i1.ev.latests ∧ l ∈ i1.ev.rlatests := by
+          cases confirm with
+          | none => simp [i1, Impl.addLatest, Evidence.addLatest]
+          | some b =>
+            by_cases hcl : cfg.confirmLatest = true
+            · simp [i1, hcl, Impl.addLatest, Impl.addBlock, Evidence.addLatest, Evidence.addBlock]
+            · simp [i1, hcl, Impl.addLatest, Evidence.addLatest]
+        cases m with
+        | lenient =>
+          unfold justified
+          have : (i1.ev.latests.any (fun l' => decide (l'.num ≤ hd.num) &&
+              (match byNumber? (hd :: tl) l'.num with
+                | some lb => lb.hash != l'.hash | none => false))) = true := by
+            rw [List.any_eq_true]
+            exact ⟨l, hlat.1, by simp [hlnum, hlook, hne]⟩
+          simp only [Bool.or_eq_true]
+          exact Or.inr this
+        | fresh =>
+          unfold justified
+          have : (i1.ev.rlatests.any (fun l' => decide (l'.num ≤ hd.num) &&
+              (match byNumber? (hd :: tl) l'.num with
+                | some lb => lb.hash != l'.hash | none => false))) = true := by
+            rw [List.any_eq_true]
+            exact ⟨l, hlat.2, by simp [hlnum, hlook, hne]⟩
+          simp only [Bool.or_eq_true]
+          exact Or.inr this
+        | verified =>
+          obtain ⟨_, hcl⟩ := hm.ver rfl
+          obtain ⟨b, hcb, hbok, hbn, hbh⟩ := hconf hcl
+          subst hcb
+          unfold justified
+          rw [List.any_eq_true]
+          refine ⟨(l.num, b), by simp [i1, hcl, Impl.addBlock, Impl.addLatest, Evidence.addBlock, Evidence.addLatest], ?_⟩
+          have hne' : lh.hash ≠ b.hash := by rw [hbh]; exact hne
+          simp [hbok, hbn, hlnum, hlook, hne']
 
-theorem Sim.step_iter (cfg : Cfg) {strict : Bool} {i : Impl} {sp : Spec} (h : Sim strict i sp) (ans : Option Blk)
+theorem Sim.step_iter (cfg : Cfg) {m : Mode} {i : Impl} {sp : Spec} (h : Sim m i sp)
+    (hm : ModeOK cfg m) (ans : Option Blk)
     (revOk : Bool) (hok : i.evOK cfg (.iter ans revOk)) :
-    ∃ sp', Spec.run strict sp (i.emit cfg (.iter ans revOk)) = .ok sp' ∧
-      Sim strict (i.step cfg (.iter ans revOk)).1 sp' := by
+    ∃ sp', Spec.run m sp (i.emit cfg (.iter ans revOk)) = .ok sp' ∧
+      Sim m (i.step cfg (.iter ans revOk)).1 sp' := by
   obtain ⟨hrev, hnum⟩ := hok
   subst hrev
   cases ht : i.task with
@@ -436,19 +532,18 @@ theorem Sim.step_iter (cfg : Cfg) {strict : Bool} {i : Impl} {sp : Spec} (h : Si
       rw [hstep]
       exact ⟨h.chain, h.ev, h.owed, h.reorg, h.linked, h.bound, by intro l hl; cases hl⟩
     | cons H T =>
-      -- the state after the (possible) ghost answer
       let x : Option (Nat × Blk) := if H.num ≤ lpv then ans.map (fun rb => (H.num, rb)) else none
       let i1 : Impl := match x with | some y => i.addBlock y | none => i
       let sp1 : Spec := match x with | some y => sp.addBlock y | none => sp
-      have h1 : Sim strict i1 sp1 := by
+      have h1 : Sim m i1 sp1 := by
         cases hx : x with
         | none => simpa [i1, sp1, hx] using h
         | some y => simpa [i1, sp1, hx] using h.addBlock y
       have hi1 : i1.node = i.node ∧ i1.task = i.task := by
         cases hx : x <;> simp [i1, hx, Impl.addBlock]
-      have hghost : ∀ rest, Spec.run strict sp
+      have hghost : ∀ rest, Spec.run m sp
           ((if H.num ≤ lpv then (match ans with | some rb => [SEv.served H.num rb] | none => [])
-            else []) ++ rest) = Spec.run strict sp1 rest := by
+            else []) ++ rest) = Spec.run m sp1 rest := by
         intro rest
         by_cases hle : H.num ≤ lpv
         · cases ans with
@@ -470,11 +565,10 @@ theorem Sim.step_iter (cfg : Cfg) {strict : Bool} {i : Impl} {sp : Spec} (h : Si
           rw [hstep]
           exact ⟨h1.chain, h1.ev, h1.owed, h1.reorg, h1.linked, h1.bound, by intro l hl; cases hl⟩
       | revert cont =>
-        -- the head is justified
-        have hj : justified strict sp1.ev sp1.chain H = true := by
+        have hj : justified m sp1.ev sp1.chain H = true := by
           rw [h1.ev, h1.chain, hi1.1, hch]
           by_cases hle : H.num ≤ lpv
-          · -- the answer was consulted: it differs and carries the right number
+          · -- the answer was consulted: it differs, carries the right number, (is verified)
             unfold revertIter at hit
             simp only [hle, if_true] at hit
             cases ans with
@@ -488,13 +582,35 @@ theorem Sim.step_iter (cfg : Cfg) {strict : Bool} {i : Impl} {sp : Spec} (h : Si
                   by_cases e : rb.num = H.num
                   · exact e
                   · simp [hnc, e] at hit
+              have hver : cfg.verifyAns = true → rb.ok = true := by
+                intro hv
+                by_cases e : rb.ok = true
+                · exact e
+                · simp [hv, e, hrbnum] at hit
               have hne : rb.hash ≠ H.hash := by
-                intro e; simp [e] at hit
-              unfold justified
-              have : (i1.ev.blocks.any
-                  (fun y => y.1 == H.num && y.2.num == H.num && y.2.hash != H.hash)) = true := by
-                simp [i1, x, hle, Impl.addBlock, hrbnum, hne]
-              simp [this]
+                intro e; simp [e, hrbnum] at hit
+              have hmem : (H.num, rb) ∈ i1.ev.blocks ∧ (H.num, rb) ∈ i1.ev.rblocks := by
+                simp [i1, x, hle, Impl.addBlock, Evidence.addBlock]
+              cases m with
+              | lenient =>
+                unfold justified
+                have : (i1.ev.blocks.any
+                    (fun y => y.1 == H.num && y.2.num == H.num && y.2.hash != H.hash)) = true := by
+                  rw [List.any_eq_true]; exact ⟨_, hmem.1, by simp [hrbnum, hne]⟩
+                simp [this]
+              | fresh =>
+                unfold justified
+                have : (i1.ev.rblocks.any
+                    (fun y => y.1 == H.num && y.2.num == H.num && y.2.hash != H.hash)) = true := by
+                  rw [List.any_eq_true]; exact ⟨_, hmem.2, by simp [hrbnum, hne]⟩
+                simp [this]
+              | verified =>
+                have hrok := hver (hm.ver rfl).1
+                unfold justified
+                rw [List.any_eq_true]
+                refine ⟨_, hmem.2, ?_⟩
+                have hne' : H.hash ≠ rb.hash := fun e => hne e.symm
+                simp [hrok, hrbnum, Linked.byNumber_head, hne']
           · have := h1.task lpv (by rw [hi1.2, ht]) H T (by rw [hi1.1, hch]; exact List.suffix_refl _)
               (by omega)
             exact this
@@ -511,7 +627,7 @@ theorem Sim.step_iter (cfg : Cfg) {strict : Bool} {i : Impl} {sp : Spec} (h : Si
         have hc1 : sp1.chain = H :: T := by rw [h1.chain, hi1.1, hch]
         refine ⟨{ sp1 with chain := T, pending := H :: sp1.pending }, ?_, ?_⟩
         · simp only [Spec.run]
-          rw [Spec.step_reverted strict sp1 H T hc1 hj]
+          rw [Spec.step_reverted m sp1 H T hc1 hj]
         · refine ⟨by simp [revertHead, hch], h1.ev, h1.owed, ?_, ?_, ?_, ?_⟩
           · have hr : i.node.reorg = rangeOf sp1.pending := by rw [← hi1.1]; exact h1.reorg
             simp only [revertHead]
@@ -532,13 +648,13 @@ theorem Sim.step_iter (cfg : Cfg) {strict : Bool} {i : Impl} {sp : Spec} (h : Si
             exact h1.task lpv' (by rw [hi1.2, ht]) hd tl
               (by rw [hi1.1, hch]; exact hs.trans (List.suffix_cons _ _)) hlt
 
-theorem Sim.step (cfg : Cfg) {strict : Bool} {i : Impl} {sp : Spec} (h : Sim strict i sp)
-    (hsc : strict = true → cfg.confirmHead = true) (e : Ev) (hok : i.evOK cfg e) :
-    ∃ sp', Spec.run strict sp (i.emit cfg e) = .ok sp' ∧ Sim strict (i.step cfg e).1 sp' := by
+theorem Sim.step (cfg : Cfg) {m : Mode} {i : Impl} {sp : Spec} (h : Sim m i sp)
+    (hm : ModeOK cfg m) (e : Ev) (hok : i.evOK cfg e) :
+    ∃ sp', Spec.run m sp (i.emit cfg e) = .ok sp' ∧ Sim m (i.step cfg e).1 sp' := by
   cases e with
-  | deliver req b c => exact h.step_deliver cfg hsc req b c hok
-  | reorgDetected next latest => exact h.step_reorgDetected cfg next latest
-  | iter ans revOk => exact h.step_iter cfg ans revOk hok
+  | deliver req b c => exact h.step_deliver cfg hm req b c hok
+  | reorgDetected next latest confirm => exact h.step_reorgDetected cfg hm next latest confirm
+  | iter ans revOk => exact h.step_iter cfg hm ans revOk hok
   | restart =>
     cases ht : i.task with
     | some lpv =>
@@ -556,9 +672,9 @@ theorem Impl.run_cons (cfg : Cfg) (i : Impl) (e : Ev) (es : List Ev) :
     Impl.run cfg i (e :: es) =
       ((Impl.run cfg (i.step cfg e).1 es).1, (i.step cfg e).2 ++ (Impl.run cfg (i.step cfg e).1 es).2) := rfl
 
-theorem Sim.run (cfg : Cfg) {strict : Bool} (hsc : strict = true → cfg.confirmHead = true) :
-    ∀ (es : List Ev) {i : Impl} {sp : Spec}, Sim strict i sp → i.runOK cfg es →
-    ∃ sp', Spec.run strict sp (i.trace cfg es) = .ok sp' ∧ Sim strict (Impl.run cfg i es).1 sp'
+theorem Sim.run (cfg : Cfg) {m : Mode} (hsc : ModeOK cfg m) :
+    ∀ (es : List Ev) {i : Impl} {sp : Spec}, Sim m i sp → i.runOK cfg es →
+    ∃ sp', Spec.run m sp (i.trace cfg es) = .ok sp' ∧ Sim m (Impl.run cfg i es).1 sp'
   | [], i, sp, h, _ => ⟨sp, rfl, h⟩
   | e :: es, i, sp, h, hok => by
     obtain ⟨sp1, hr1, hs1⟩ := h.step cfg hsc e hok.1
@@ -570,10 +686,10 @@ theorem Sim.run (cfg : Cfg) {strict : Bool} (hsc : strict = true → cfg.confirm
 
 /-! ### what acceptance means -/
 
-theorem Spec.stored_inv {strict : Bool} {s s' : Spec} {n h : Nat}
-    (hst : Spec.step strict s (.obs (.stored n h)) = .ok s') :
+theorem Spec.stored_inv {m : Mode} {s s' : Spec} {n h : Nat}
+    (hst : Spec.step m s (.obs (.stored n h)) = .ok s') :
     ∃ req b, (req, b) ∈ s.ev.blocks ∧ b.ok = true ∧ b.num = n ∧ b.hash = h ∧
-      succession s.chain b = .stored ∧ s'.chain = b :: s.chain ∧ s'.ev = s.ev := by
+      succession s.chain b = .stored ∧ s'.chain = b :: s.chain ∧ s'.ev = s.ev.clearRecent := by
   simp only [Spec.step] at hst
   split at hst
   · split at hst <;> cases hst
@@ -586,9 +702,9 @@ theorem Spec.stored_inv {strict : Bool} {s s' : Spec} {n h : Nat}
       cases hst
       exact ⟨rb.1, rb.2, hm, hp.1.2, hp.1.1.1, hp.1.1.2, hp.2, rfl, rfl⟩
 
-theorem Spec.reverted_inv {strict : Bool} {s s' : Spec} {n h : Nat}
-    (hst : Spec.step strict s (.obs (.reverted n h)) = .ok s') :
-    ∃ hd tl, s.chain = hd :: tl ∧ hd.num = n ∧ hd.hash = h ∧ justified strict s.ev s.chain hd = true ∧
+theorem Spec.reverted_inv {m : Mode} {s s' : Spec} {n h : Nat}
+    (hst : Spec.step m s (.obs (.reverted n h)) = .ok s') :
+    ∃ hd tl, s.chain = hd :: tl ∧ hd.num = n ∧ hd.hash = h ∧ justified m s.ev s.chain hd = true ∧
       s' = { s with chain := tl, pending := hd :: s.pending } := by
   simp only [Spec.step] at hst
   split at hst
@@ -606,7 +722,7 @@ theorem Spec.reverted_inv {strict : Bool} {s s' : Spec} {n h : Nat}
         exact ⟨hd, tl, hc, hne.1, hne.2, hc ▸ hj, rfl⟩
 
 /-- Any accepted step changes the chain by one store, by one justified revert, or not at all. -/
-theorem Spec.step_chain {strict : Bool} {s s' : Spec} {e : SEv} (hst : Spec.step strict s e = .ok s') :
+theorem Spec.step_chain {m : Mode} {s s' : Spec} {e : SEv} (hst : Spec.step m s e = .ok s') :
     s'.chain = s.chain ∨
     (∃ n h, e = .obs (.stored n h)) ∨
     (∃ n h, e = .obs (.reverted n h)) := by
@@ -620,7 +736,7 @@ theorem Spec.step_chain {strict : Bool} {s s' : Spec} {e : SEv} (hst : Spec.step
     cases o with
     | stored n h => right; left; exact ⟨n, h, rfl⟩
     | reverted n h => right; right; exact ⟨n, h, rfl⟩
-    | revertFailed n h => simp [Spec.step] at hst
+    | revertFailed n h => left; simp only [Spec.step] at hst; cases hst; rfl
     | newHead n h =>
       left; simp only [Spec.step] at hst
       split at hst
